@@ -14,12 +14,15 @@ Engine E1.  Layers (each enumerated completely up to the tier bound):
   pert   every tip of every ranked tree moved by +-delta for every delta of a table that
          brackets every precision (p/2, p, 2p): acceptance / rejection, error class, forced
          ages, restored lengths, gamma's check.
-  gen    every assignment of edge lengths from {1,2} (not ultrametric in general, several
-         tips displaced): forced ages, depths, lineages, tree length, treeness, and the
-         acceptance decision wherever both readings of the docstring agree.
+  gen    every assignment of edge lengths from {0,1,2} (n <= 3) resp. {1,2} and {0,1}
+         (n >= 4) - not ultrametric in general, several tips displaced, zero-length edges:
+         forced ages, depths, lineages, tree length, treeness, and the acceptance decision
+         wherever both readings of the docstring agree.
   part   edge lengths from {None, 1} (and a root edge length): Tree.length only.
   stat   B1, Colless (every normalisation), Sackin (every normalisation), N-bar on every
-         shape, under every child order (n <= 4) / order variant.
+         shape, under every child order (n <= 4) / order variant, by the module function
+         and by the deprecated Tree method; treeness and gamma on the same drawings (every
+         weak ranking of the base drawing).
   hist   Pybus-Harvey gamma after the node ages were computed for other edge lengths.
 
 Reference: plain Python on snapshots (this file); Fractions decide acceptance/rejection.
@@ -97,11 +100,11 @@ def bounds(tier):
         return {"ult_max_leaves": 5, "pert_max_leaves": 5, "pert_all_order_variants_up_to": 4,
                 "gen_max_leaves": 4, "stat_max_leaves": 6, "all_orders_up_to": 4, "hist_max_leaves": 4,
                 "height_maps": sorted(HMAPS), "precisions": [repr(p) for p in PREC_ALL],
-                "deltas": [d for d, _ in DELTAS], "gen_alphabet": [1, 2]}
+                "deltas": [d for d, _ in DELTAS], "gen_alphabets": {"n<=3": [0, 1, 2], "n>=4": [[1, 2], [0, 1]]}}
     return {"ult_max_leaves": 6, "pert_max_leaves": 6, "pert_all_order_variants_up_to": 5,
             "gen_max_leaves": 5, "stat_max_leaves": 7, "all_orders_up_to": 4, "hist_max_leaves": 5,
             "height_maps": sorted(HMAPS), "precisions": [repr(p) for p in PREC_ALL],
-            "deltas": [d for d, _ in DELTAS], "gen_alphabet": [1, 2]}
+            "deltas": [d for d, _ in DELTAS], "gen_alphabets": {"n<=3": [0, 1, 2], "n>=4": [[1, 2], [0, 1]]}}
 
 
 def chunks(tier):
@@ -978,6 +981,9 @@ def run_pert(chunk, ctx):
                                 if sn is None:
                                     continue
                                 ctx.count("displaced_trees")
+                                if dex and any(decide(sn, q, True) == "either" for q in (1e-5, P10, 0, 1)):
+                                    # DESIGN: for a single displaced tip the two readings coincide
+                                    raise RuntimeError("single-tip displacement left undecided: %s" % nwk(sn))
                                 base = {"tree": sn, "exact": dex, "tip": list(lp), "delta": sign * delta, "hmap": hm}
                                 for p in PREC_PERT:
                                     fns = AGE_FNS[:1] if p not in (DEFAULT, P10) else ("calc_node_ages", "node_ages", "internal_node_ages")
@@ -1014,8 +1020,14 @@ def run_gen(chunk, ctx):
         shape = shapes[si]
         drawings = order_drawings(shape, n, b["all_orders_up_to"]) if n <= 4 else (
             [shape, U.reverse_all(shape)] if U.reverse_all(shape) != shape else [shape])
+        alphabets = [(0.0, 1.0, 2.0)] if n <= 3 else [(1.0, 2.0), (0.0, 1.0)]
+        assignments = []
+        for al in alphabets:
+            for lens in itertools.product(al, repeat=count_nonroot(shape)):
+                if lens not in assignments:
+                    assignments.append(lens)
         for d in drawings:
-            for lens in itertools.product((1.0, 2.0), repeat=count_nonroot(d)):
+            for lens in assignments:
                 sn = lens_snap(d, lens)
                 ctx.count("general_length_assignments")
                 base = {"tree": sn, "exact": True}
@@ -1040,7 +1052,7 @@ def run_gen(chunk, ctx):
                 ctx.count("treeness_trees")
                 check_treeness(dict(base, kind="treeness"), ctx)
         ctx.sample({"layer": "gen", "shape": ref.to_newick(ref.mk(shape), False), "drawings": len(drawings),
-                    "assignments_per_drawing": 2 ** count_nonroot(shape)}, 1)
+                    "assignments_per_drawing": len(assignments), "alphabets": alphabets}, 1)
 
 
 def run_part(chunk, ctx):
@@ -1064,11 +1076,27 @@ def run_stat(chunk, ctx):
         shape = shapes[si]
         drawings = order_drawings(shape, n, b["all_orders_up_to"])
         bsn = ref.mk(drawings[0])
-        for d in drawings:
+        for di, d in enumerate(drawings):
             sn = ref.mk(d)
             ctx.case(("stat", sn), _nontriv(n))
             ctx.count("statistic_drawings")
             check_stats({"kind": "stats", "tree": sn, "base": bsn}, ctx)
+            # the two length-based statistics on the same drawings: every weak ranking of the base
+            # drawing, the first ranking of the re-ordered ones
+            if n < 2:
+                continue
+            rks = list(rankings(d)) if di == 0 else [next(rankings(d))]
+            for ranks in rks:
+                for hm in (("lin", "mix") if di == 0 else ("mix",)):
+                    usn = ultra_snap(d, ranks, hm)
+                    base = {"tree": usn, "exact": True, "hmap": hm}
+                    ctx.case(("treeness", usn), _nontriv(n))
+                    ctx.count("treeness_trees")
+                    check_treeness(dict(base, kind="treeness"), ctx)
+                    if n >= 3 and U.is_binary(d):
+                        ctx.case(("gamma", usn, repr(DEFAULT), "module"), True)
+                        ctx.count("gamma_calls")
+                        check_gamma(dict(base, kind="gamma", prec=DEFAULT, via="module"), ctx)
         if si % 97 == 0:
             ctx.sample({"layer": "stat", "shape": ref.to_newick(bsn, False), "drawings": len(drawings),
                         "reference": dict(("%s(%s)" % k, v) for k, v in ref_topo_stats(bsn).items())}, 1)
